@@ -540,7 +540,7 @@ enum Part {
     Overlap(prop::sample::Index),
 }
 
-fn search_strategy() -> impl Strategy<Value = Case> {
+pub fn search_strategy() -> impl Strategy<Value = Case> {
     let part = prop_oneof![
         3 => any::<prop::sample::Index>().prop_map(Part::Prefix),
         2 => any::<prop::sample::Index>().prop_map(Part::Suffix),
@@ -658,6 +658,57 @@ fn num_strategy() -> impl Strategy<Value = Case> {
     ]
     .prop_map(|text| Case::Num { text, expect: None });
     prop_oneof![3 => valid, 1 => invalid]
+}
+
+/// A script that routes (hay, needle, repl) through parameters into find / replace / split /
+/// join / slice / len and prints the results. Characters the literal syntax cannot carry
+/// (CR, braces that would read as placeholders) are replaced.
+pub fn script_for_search(hay: &str, needle: &str, repl: &str) -> String {
+    let lit = |s: &str| -> String {
+        let cleaned: String = s
+            .chars()
+            .map(|c| match c {
+                '\r' => ' ',
+                '{' => '(',
+                '}' => ')',
+                c => c,
+            })
+            .collect();
+        let mut out = String::from("\"");
+        crate::nsgen::print::escape_text(&cleaned, '"', &mut out);
+        out.push('"');
+        out
+    };
+    format!(
+        "do w(h, n, r) start\n    shout(h.find(n))\n    shout(h.replace(n, r))\n    make parts get h.split(n)\n    shout(parts.len())\n    shout(parts.join(n))\n    shout(h.slice(h.find(n), h.len()))\n    shout(h.len())\nend\nw({}, {}, {})\n",
+        lit(hay),
+        lit(needle),
+        lit(repl)
+    )
+}
+
+/// What the script of [`script_for_search`] must print, from the naive oracles (None where the
+/// documentation leaves the script-level result open: empty patterns, non-ASCII find index).
+pub fn expected_script_output(hay: &str, needle: &str, repl: &str) -> Option<Vec<crate::pipeline::NVal>> {
+    use crate::pipeline::NVal;
+    let clean = |s: &str| -> String {
+        s.chars().map(|c| match c { '\r' => ' ', '{' => '(', '}' => ')', c => c }).collect()
+    };
+    let (h, n, r) = (clean(hay), clean(needle), clean(repl));
+    if n.is_empty() || !h.is_ascii() {
+        return None;
+    }
+    let found = naive_find(h.as_bytes(), n.as_bytes());
+    let idx = found.map_or(-1.0, |i| i as f64);
+    let parts = naive_split(&h, &n);
+    Some(vec![
+        NVal::Num(idx),
+        NVal::s(&naive_replace(&h, &n, &r)),
+        NVal::Num(parts.len() as f64),
+        NVal::s(&h),
+        NVal::s(&model_slice(&h, idx, h.chars().count() as f64)),
+        NVal::Num(h.chars().count() as f64),
+    ])
 }
 
 // ----------------------------------------------------------------- stages --
@@ -817,6 +868,50 @@ impl Check for C13 {
         prop_stage(ctx, "slice", t.pick(6_000, 150_000), slice_strategy());
         prop_stage(ctx, "text", t.pick(6_000, 150_000), text_string().prop_map(|s| Case::Text { s }));
         prop_stage(ctx, "to_number", t.pick(6_000, 150_000), num_strategy());
+        // wiring: the same cases through a script (runtime.rs argument order, receiver, results)
+        crate::prop::run(ctx, "via-script", t.pick(1_500, 30_000), search_strategy(), |ctx, case| {
+            let Case::Search { hay, needle, repl } = case else { return Outcome::Pass };
+            ctx.eval();
+            let src = script_for_search(hay, needle, repl);
+            let Some(want) = expected_script_output(hay, needle, repl) else {
+                return Outcome::Discard("script-level result undocumented (empty pattern / non-ASCII find index)");
+            };
+            let res = crate::progs::run_impl(&src, &[crate::pipeline::Mode::FP], false);
+            match &res[0] {
+                crate::pipeline::ModeResult::Crash(c) => {
+                    if crate::progs::is_arena_exhaustion(c) || c == "timeout" {
+                        return Outcome::Discard("U8");
+                    }
+                    Outcome::Fail(Failure {
+                        sig: format!("crash|{c}|via-script|{}", nlen_tier(needle.len())),
+                        what: format!("crash {c} running\n{src}"),
+                        input: json!({"case": case.to_json(), "via_script": true}),
+                    })
+                }
+                crate::pipeline::ModeResult::Ok(o) => {
+                    if !o.accepted() {
+                        return Outcome::Discard("script rejected");
+                    }
+                    ctx.class("via script");
+                    if needle.len() > 16 {
+                        ctx.nontrivial(case.hash());
+                    }
+                    if o.output != want || o.rt_error().is_some() {
+                        return Outcome::Fail(Failure {
+                            sig: format!("mismatch|via-script|{}", nlen_tier(needle.len())),
+                            what: format!(
+                                "script prints {} (ending {:?}), naive oracles give {}\n{src}",
+                                crate::progs::show_vals(&o.output),
+                                o.rt_error(),
+                                crate::progs::show_vals(&want)
+                            ),
+                            input: json!({"case": case.to_json(), "via_script": true}),
+                        });
+                    }
+                    Outcome::Pass
+                }
+            }
+        });
         if t == Tier::Thorough {
             let inputs = crate::driver::fuzz_inputs("strings", 40_000);
             if ctx.shard == 0 {
